@@ -20,16 +20,17 @@ from .common import (DEFAULT_NS, Outcome, call, load_repo, open_store, read_all_
 from .gen import make_content, op_shape
 from .seqengine import World
 
-FAULT_KINDS = {"create", "wopen", "rename", "remove", "mkdir", "lock", "ropen"}
+FAULT_KINDS = {"create", "wopen", "rename", "remove", "mkdir", "lock", "ropen", "write"}
 CRASH_KINDS = {"create", "wopen", "rename", "remove", "mkdir", "chmod", "truncate", "link",
-               "flush-before-truncate", "close-write", "rmdir"}
+               "flush-before-truncate", "close-write", "rmdir", "write"}
 # "a failure that persists for that destination": every operation of the same class on the same destination
 # keeps failing until the call returns. Putting a file AT a destination (rename onto it, create, open for
 # writing, mkdir) is one class - so a failed rename is not silently rescued by shutil.move's copy fallback -
 # while reading it, removing it and locking it are classes of their own (a roll-back may still remove or
 # read a file that could not be written).
 PERSIST_CLASS = {"create": "write-to-destination", "wopen": "write-to-destination", "rename": "write-to-destination",
-                 "mkdir": "write-to-destination", "ropen": "open-for-reading", "remove": "remove", "lock": "lock"}
+                 "mkdir": "write-to-destination", "ropen": "open-for-reading", "remove": "remove", "lock": "lock",
+                 "write": "write-data"}
 NOT_FOUND = {"PidRefsDoesNotExist", "OrphanPidRefsFileFound", "PidNotFoundInCidRefsFile",
              "RefsFileExistsButCidObjMissing"}
 
@@ -84,6 +85,14 @@ CASES = [
     ("s->Y,p3->Y+meta", _st("s", "X"), "store on a bound pid (rejected)"),
     ("s->Y,p3->Y+meta", _sm("s", "f1", "v2"), "store_metadata overwrite on bound pid"),
     ("s->Y,p3->Y+meta", {"op": "delete", "pid": "s"}, "delete one of two sharers with metadata"),
+    ("empty", {"op": "store", "pid": "s", "content": "X", "kind": "bytesio", "offset": "mid", "checksum": "ok",
+               "calgo": "sha224", "size": "ok", "add": "blake2s"}, "store from a stream with correct validation data"),
+    ("p2->X,p3->Y+meta", {"op": "store", "pid": "s", "content": "X", "kind": "file", "checksum": "wrong", "calgo": "md5"},
+     "store duplicate content with a wrong checksum (rejected)"),
+    ("X-unreferenced,p3->Y", {"op": "dii", "content": "X", "checksum": "wrong", "calgo": "sha256", "size": "ok"},
+     "delete_if_invalid_object removes an unreferenced object"),
+    ("p2->X,p3->Y+meta", {"op": "dii", "content": "X", "checksum": "wrong", "calgo": "sha3_256", "size": "ok"},
+     "delete_if_invalid_object on a referenced object"),
     ("s->Y,p3->Y+meta", _tag("s", "Y"), "tag a bound pid to the cid it already has (rejected)"),
     ("s->Y,p3->Y+meta", _st("s", "Y"), "store the same content again on a bound pid (rejected)"),
 ]
@@ -231,6 +240,8 @@ class Case:
 # ---------------------------------------------------------------------- fault injection
 
 class FaultInjector:
+    wants_write_ops = True
+
     def __init__(self, root, site, code, persistent):
         self.root = os.path.abspath(str(root))
         self.site = site
@@ -243,7 +254,7 @@ class FaultInjector:
         self.ops = []
 
     def wants_proxy(self, op):
-        return probe.is_shared_store_path(self.root, op.path)
+        return probe.under(self.root, op.path)
 
     def pre(self, op):
         self.n += 1
@@ -413,13 +424,15 @@ def run_fault(case, site, code, persistent):
 # ---------------------------------------------------------------------- crash (fork + _exit)
 
 class CrashAt:
+    wants_write_ops = True
+
     def __init__(self, root, site):
         self.root = os.path.abspath(str(root))
         self.site = site
         self.n = -1
 
     def wants_proxy(self, op):
-        return probe.is_shared_store_path(self.root, op.path)
+        return probe.under(self.root, op.path)
 
     def pre(self, op):
         self.n += 1
@@ -506,6 +519,8 @@ def judge_crash(case, recovery_content):
         view2 = case.bystander_view(case.rundir, subject, store)
         for p, d in bystander_diff(case.bystander_before, view2).items():
             probs.append(("bystander-changed-by-recovery", dict(d, pid=p)))
+    elif kind == "dii":
+        state_label = "no-subject"
     else:
         state_label = "metadata"
         f = case.call.get("fmt")
@@ -513,6 +528,23 @@ def judge_crash(case, recovery_content):
             call(store.store_metadata, subject, next(iter(case._paths.values())))
         if not s.ok:
             probs.append(("recovery-store-metadata-failed", {"error": s.brief(), "msg": s.msg}))
+    # later life: what the crash left behind must not trip LATER, different calls on the other pids
+    for b in case.pids:
+        if b == subject or case.bystander_before[b]["pid_ref"] is None:
+            continue
+        m = call(store.store_metadata, b, next(iter(case._paths.values())), "later")
+        if not m.ok:
+            probs.append(("bystander-later-call-failed", {"pid": b, "call": "store_metadata", "error": m.brief(), "msg": m.msg}))
+        dm = call(store.delete_metadata, b)
+        if not dm.ok:
+            probs.append(("bystander-later-call-failed", {"pid": b, "call": "delete_metadata(all)", "error": dm.brief(), "msg": dm.msg}))
+        if case.bystander_before[b]["retrieve"] != "RefsFileExistsButCidObjMissing":
+            g = call(store.retrieve_object, b)
+            if not g.ok or case.layout.cid_of(read_all_and_close(g.value)) != case.bystander_before[b]["pid_ref"]:
+                probs.append(("bystander-later-call-failed", {"pid": b, "call": "retrieve_object", "error": g.brief()}))
+        d2 = call(store.delete_object, b)
+        if not d2.ok:
+            probs.append(("bystander-later-call-failed", {"pid": b, "call": "delete_object", "error": d2.brief(), "msg": d2.msg}))
     return probs, state_label
 
 
@@ -521,6 +553,8 @@ def judge_crash(case, recovery_content):
 class BoundaryObserver:
     """C09: after every intercepted operation of the writer, read each permanent file the way a
     concurrent reader (or a post-mortem inspector) would."""
+
+    wants_write_ops = True
 
     def __init__(self, case_or_root, layout, valid_docs, valid_cids, root=None):
         self.root = os.path.abspath(str(root or case_or_root))
@@ -534,7 +568,7 @@ class BoundaryObserver:
         self.ops = []
 
     def wants_proxy(self, op):
-        return probe.is_shared_store_path(self.root, op.path)
+        return probe.under(self.root, op.path)
 
     def pre(self, op):
         self.ops.append(op)
